@@ -156,6 +156,44 @@ build:
 	return r
 }
 
+// escape marks the blocks of the byte slices in v as possibly aliased.
+func (u *Unit) escape(st *State, v Val) {
+	switch x := v.(type) {
+	case SliceV:
+		if x.List != nil {
+			return
+		}
+		key := x.Blk.S
+		if x.Blk.BlkOf != nil {
+			key = x.Blk.BlkOf.S
+		}
+		if c, ok := st.canon[key]; ok {
+			key = c
+		}
+		if r := st.regions[key]; r != nil && !r.Escaped {
+			n := *r
+			n.Escaped = true
+			st.regions[key] = &n
+		}
+	case StructV:
+		for _, e := range x.F {
+			u.escape(st, e)
+		}
+	case TupleV:
+		for _, e := range x.E {
+			u.escape(st, e)
+		}
+	case ArrTupleV:
+		for _, e := range x.E {
+			u.escape(st, e)
+		}
+	case IfaceV:
+		if x.Dyn != nil {
+			u.escape(st, x.V)
+		}
+	}
+}
+
 func (u *Unit) setContents(st *State, key string, c *Term) {
 	if ck, ok := st.canon[key]; ok {
 		key = ck
